@@ -11,6 +11,7 @@ BIN = _m.BIN
 RUNMOD = _m.RUNMOD
 FEATURES = getattr(_m, "FEATURES", None)
 FNS = ['from_be_bytes', 'from_le_bytes', 'from_be_slice', 'from_le_slice', 'try_from_be_slice', 'try_from_le_slice']
+NO_ADAPT = True       # the owning property's check widens its own search when its sources change
 BUDGET = 1500          # generated cases kept per run (the owning property runs them all)
 
 
